@@ -5,6 +5,7 @@ use crate::util::*;
 use rln::circuit::Fr;
 use rln::hashers::PoseidonHash;
 use serde_json::{json, Value};
+use std::collections::{BTreeMap, BTreeSet};
 use std::panic::AssertUnwindSafe;
 use zerokit_utils::{
     FullMerkleBranch, FullMerkleProof, FullMerkleTree, OptimalMerkleProof, OptimalMerkleTree,
@@ -163,6 +164,138 @@ where
     o
 }
 
+
+/// positions whose proofs a sparse observation asks for: the lowest and the highest watched ones and two that
+/// move with the state (so that high positions and a memo inside the backend are exercised)
+pub fn proof_positions(touched: &BTreeSet<usize>, salt: usize) -> Vec<usize> {
+    let v: Vec<usize> = touched.iter().cloned().collect();
+    let mut pick: BTreeSet<usize> = BTreeSet::new();
+    for &i in v.iter().take(3) {
+        pick.insert(i);
+    }
+    for &i in v.iter().rev().take(3) {
+        pick.insert(i);
+    }
+    if !v.is_empty() {
+        pick.insert(v[(salt * 7 + 3) % v.len()]);
+        pick.insert(v[(salt * 13 + 5) % v.len()]);
+    }
+    pick.into_iter().collect()
+}
+
+pub fn touched_by(op: &Value, next_before: usize, out: &mut BTreeSet<usize>, cap: usize) {
+    let mut add = |i: usize| {
+        if i < cap {
+            out.insert(i);
+        }
+    };
+    match op["c"].as_str().unwrap() {
+        "set" | "delete" => add(op["i"].as_u64().unwrap() as usize),
+        "append" => add(next_before),
+        "range" | "override" | "init" => {
+            let s = op.get("s").and_then(|x| x.as_u64()).unwrap_or(0) as usize;
+            let n = op["vs"].as_array().unwrap().len();
+            for k in 0..n {
+                add(s + k);
+            }
+            if let Some(rem) = op.get("rem").and_then(|x| x.as_array()) {
+                for x in rem {
+                    add(x.as_u64().unwrap() as usize);
+                }
+                // the known deviant batch (persistent backend) writes start-min(rem)+n values at start:
+                // watch that whole span (bounded) so that the observation stays complete
+                let min = rem.iter().map(|x| x.as_u64().unwrap() as usize).min().unwrap_or(s);
+                let span = if s > min { s - min + n } else { n } + 8;
+                for k in 0..span.min(4096) {
+                    add(s + k);
+                }
+            }
+        }
+        _ => {}
+    }
+}
+
+
+/// Sparse observation of a large tree through the trait API: watched positions, root, mark, proofs of a few
+/// watched positions with everything the proof type exposes. Same shape as the RLN-level sparse observation.
+pub fn observe_sparse<T>(tree: &T, d: usize, touched: &BTreeSet<usize>, it: &mut Interner) -> Value
+where
+    T: ZerokitMerkleTree<Hasher = PoseidonHash>,
+    T::Proof: ZerokitMerkleProof<Hasher = PoseidonHash, Index = u8> + ProofBuild,
+{
+    let mut o = json!({"sparse": true, "depth": tree.depth(), "cap": tree.capacity()});
+    let next = tree.leaves_set();
+    o["next"] = json!(next);
+    if next <= 4096 {
+        o["empties"] = json!(tree.get_empty_leaves_indices());
+    }
+    let mut tl = Vec::new();
+    let mut vals = BTreeMap::new();
+    for &i in touched {
+        match tree.get(i) {
+            Ok(v) => {
+                tl.push(json!([i, it.id(&v)]));
+                vals.insert(i, v);
+            }
+            Err(_) => tl.push(json!([i, -1])),
+        }
+    }
+    o["touched"] = json!(tl);
+    o["tp"] = json!(touched.iter().cloned().collect::<Vec<usize>>());
+    o["nz"] = json!(vals.iter().filter(|(_, v)| **v != Fr::from(0u64)).map(|(k, v)| json!([k, it.id(v)])).collect::<Vec<_>>());
+    o["unread"] = json!(touched.iter().filter(|i| !vals.contains_key(i)).count());
+    o["root"] = json!(it.id(&tree.root()));
+    o["get_oob"] = json!(if tree.get(1usize << d).is_err() { "err" } else { "ok" });
+    let mut zs = vec![Fr::from(0u64); d + 1];
+    for l in (0..d).rev() {
+        zs[l] = it.hash2(&zs[l + 1].clone(), &zs[l + 1].clone());
+    }
+    o["zs"] = json!(zs.iter().map(|z| it.id(z)).collect::<Vec<_>>());
+    let mut level: BTreeMap<usize, Fr> = vals.iter().filter(|(_, v)| **v != Fr::from(0u64)).map(|(k, v)| (*k, *v)).collect();
+    for l in (0..d).rev() {
+        let mut up = BTreeMap::new();
+        let keys: Vec<usize> = level.keys().cloned().collect();
+        for k in keys {
+            let p = k >> 1;
+            if up.contains_key(&p) {
+                continue;
+            }
+            let a = level.get(&(p << 1)).cloned().unwrap_or(zs[l + 1]);
+            let b = level.get(&((p << 1) + 1)).cloned().unwrap_or(zs[l + 1]);
+            up.insert(p, it.hash2(&a, &b));
+        }
+        level = up;
+    }
+    let mut proofs = Vec::new();
+    for i in proof_positions(touched, next) {
+        let mut p = json!({"i": i});
+        match tree.proof(i) {
+            Err(_) => p["res"] = json!("err"),
+            Ok(pr) => {
+                p["res"] = json!("ok");
+                let sibs = pr.get_path_elements();
+                let bits = pr.get_path_index();
+                p["sib"] = json!(sibs.iter().map(|s| it.id(s)).collect::<Vec<_>>());
+                p["bits"] = json!(bits);
+                p["idx"] = json!(pr.leaf_index());
+                p["len"] = json!(pr.length());
+                if let Some(leaf) = vals.get(&i) {
+                    p["cr"] = json!(it.id(&pr.compute_root_from(leaf)));
+                    fold(it, leaf, &sibs, &bits);
+                    p["ok"] = json!(verdict(tree.verify(leaf, &pr)));
+                    let other = *leaf + Fr::from(1u64);
+                    fold(it, &other, &sibs, &bits);
+                    p["alt"] = json!({"leaf": it.id(&other), "v": verdict(tree.verify(&other, &pr))});
+                }
+            }
+        }
+        proofs.push(p);
+    }
+    o["proofs"] = json!(proofs);
+    o["proof_oob"] = json!(if tree.proof(1usize << d).is_err() { "err" } else { "ok" });
+    o
+}
+
 pub fn fr_of(v: &Value) -> Fr {
     Fr::from(v.as_u64().unwrap())
 }
@@ -212,14 +345,24 @@ pub fn run_target<T>(
     let mut tree: Option<T> = None;
     let mut d = 0usize;
     let mut n = 0usize;
+    let mut touched: BTreeSet<usize> = BTreeSet::new();
     for (k, op) in scenario.iter().enumerate() {
         if op["c"] == "reset" {
             d = op["d"].as_u64().unwrap() as usize;
+            drop(tree.take());
+            touched.clear();
+            if d > 5 {
+                for p in op.get("probe").and_then(|x| x.as_array()).cloned().unwrap_or_default() {
+                    if (p.as_u64().unwrap() as usize) < (1usize << d) {
+                        touched.insert(p.as_u64().unwrap() as usize);
+                    }
+                }
+            }
             let r = catch(AssertUnwindSafe(|| mk(d)));
             let mut ev = json!({"t": "reset", "k": k, "tgt": target, "be": target, "d": d});
             match r {
                 Ok(t) => {
-                    let obs = catch(AssertUnwindSafe(|| observe_small(&t, d, it, &[])));
+                    let obs = catch(AssertUnwindSafe(|| if d <= 5 { observe_small(&t, d, it, &[]) } else { observe_sparse(&t, d, &touched, it) }));
                     ev["obs"] = obs.unwrap_or_else(|m| json!({"broken": m}));
                     ev["res"] = json!("ok");
                     tree = Some(t);
@@ -235,6 +378,9 @@ pub fn run_target<T>(
         }
         let Some(t) = tree.as_mut() else { continue };
         n += 1;
+        if d > 5 {
+            touched_by(op, t.leaves_set(), &mut touched, 1usize << d);
+        }
         let r = catch(AssertUnwindSafe(|| apply(t, op, mk, d)));
         let mut ev = json!({"t": "op", "k": k, "tgt": target, "be": target, "d": d, "op": op});
         match r {
@@ -254,7 +400,7 @@ pub fn run_target<T>(
         } else {
             vec![]
         };
-        let obs = catch(AssertUnwindSafe(|| observe_small(&*t, d, it, &tp)));
+        let obs = catch(AssertUnwindSafe(|| if d <= 5 { observe_small(&*t, d, it, &tp) } else { observe_sparse(&*t, d, &touched, it) }));
         ev["obs"] = obs.unwrap_or_else(|m| json!({"broken": m}));
         out.push(ev);
     }
